@@ -189,6 +189,24 @@ func initModels() {
 		d := c.ZeroExt(y, 128)
 		return tuple(c, c.Extract(63, 0, c.BVBin("bvudiv", n, d)), c.Extract(63, 0, c.BVBin("bvurem", n, d)))
 	}}
+	// ---- strconv: parsing is a deterministic function of the string (value and error are uninterpreted functions of
+	// the arguments; a nil error implies the value fits the requested bit size) ----
+	parseInt := func(c *Ctx, m *mctx, str, base, bits *Term) *Term {
+		val := c.UF("strconv_parseint_val", SBV(64), str, base, bits)
+		err := c.UF("strconv_parseint_err", SIface, str, base, bits)
+		ok := c.Eq(err, c.nilIface())
+		b32 := c.Eq(bits, c.BV(32, 64))
+		m.fr.x.assume(m.g, c.Implies(c.And(ok, b32), c.And(c.BVCmp("bvsge", val, c.BV(0xffffffff80000000, 64)), c.BVCmp("bvsle", val, c.BV(0x7fffffff, 64)))))
+		return tuple(c, val, err)
+	}
+	models["strconv.ParseInt"] = &model{note: "strconv.ParseInt/Atoi modelled as uninterpreted functions of their arguments", fn: func(m *mctx) *Term {
+		c := m.fr.x.c
+		return parseInt(c, m, m.args[0], m.args[1], m.args[2])
+	}}
+	models["strconv.Atoi"] = &model{note: "strconv.ParseInt/Atoi modelled as uninterpreted functions of their arguments", fn: func(m *mctx) *Term {
+		c := m.fr.x.c
+		return parseInt(c, m, m.args[0], c.BV(10, 64), c.BV(0, 64))
+	}}
 	models["bytes.Equal"] = &model{fn: func(m *mctx) *Term {
 		x := m.fr.x
 		c := x.c
